@@ -548,6 +548,10 @@ def discharge_by_guard(p, s):
                     nf = cmp_nf(si.discr, True in labs)
                     if nf and nf[0] == "Lt" and deep_strip(nf[1]) == st and deep_strip(nf[2]) == en:
                         return "non-empty range: the call is control-dependent on start < end"
+                    if st == ("const", "int", 0):
+                        z = q.zero_test(si, en)
+                        if z is not None and labs == {not z}:
+                            return "non-empty range 0..end: the call is control-dependent on end != 0 (unsigned)"
     if decl in ("core::char::methods::<impl char>::to_digit", "core::char::methods::<impl char>::from_digit"):
         rdx = strip(s.ops[1]) if len(s.ops) > 1 else None
         if rdx and rdx[0] == "const" and isinstance(rdx[2], int) and 2 <= rdx[2] <= 36:
